@@ -197,6 +197,10 @@ def _one_connect(ctx, w, st_holder, cfg, mods, tag):
 
 
 def h_connect(ctx, mods, shape):
+    try:
+        ctx._c05_gen = 0       # key generations are counted per scenario run
+    except Exception:
+        pass
     st = Std(ctx, sym_rid=False)
     holder = {'dev': st.dev}
     w = World(ctx, mods, st.dev, impl=shape['impl'], banner=BANNER)
